@@ -66,13 +66,14 @@ class CoherenceAnalyzer(BaseAnalyzer):
         # Set the variables for spectral estimation (can also be entered by
         # user):
         if method is None:
-            self.method = {'this_method': 'welch',
-                           'Fs': self.input.sampling_rate}
+            self.method = {'this_method': 'welch'}
         else:
             self.method = method
 
         # If an input is provided, get the sampling rate from there, if you
-        # want to over-ride that, input a method with a 'Fs' field specified:
+        # want to over-ride that, input a method with a 'Fs' field specified
+        # (remember which one it was, so that set_input can refresh it):
+        self._Fs_from_input = 'Fs' not in self.method
         self.method['Fs'] = self.method.get('Fs', self.input.sampling_rate)
 
         self._unwrap_phases = unwrap_phases
@@ -92,6 +93,14 @@ class CoherenceAnalyzer(BaseAnalyzer):
                 e_s += " shorter than the requested NFFT + n_overlap. All "
                 e_s += "coherence values will be set to 1."
                 warnings.warn(e_s, RuntimeWarning)
+
+    def set_input(self, input):
+        """Set the input of the analyzer; the sampling rate used for the
+        spectral estimation follows the new input, unless the method given to
+        the constructor fixed it"""
+        BaseAnalyzer.set_input(self, input)
+        if self._Fs_from_input:
+            self.method['Fs'] = self.input.sampling_rate
 
     @desc.setattr_on_read
     def coherency(self):
@@ -464,6 +473,7 @@ class SparseCoherenceAnalyzer(BaseAnalyzer):
             e_s += "spectral estimation method must be welch"
             raise ValueError(e_s)
 
+        self._Fs_from_input = 'Fs' not in self.method
         self.method['Fs'] = self.method.get('Fs', self.input.sampling_rate)
 
         #Additional parameters for the coherency estimation:
@@ -471,6 +481,14 @@ class SparseCoherenceAnalyzer(BaseAnalyzer):
         self.ub = ub
         self.prefer_speed_over_memory = prefer_speed_over_memory
         self.scale_by_freq = scale_by_freq
+
+    def set_input(self, input):
+        """Set the input of the analyzer; the sampling rate used for the
+        spectral estimation follows the new input, unless the method given to
+        the constructor fixed it"""
+        BaseAnalyzer.set_input(self, input)
+        if self._Fs_from_input:
+            self.method['Fs'] = self.input.sampling_rate
 
     @desc.setattr_on_read
     def coherency(self):
